@@ -184,6 +184,7 @@ Definition E_SMALL : Z := 4.      (* NVAR Size smaller than header size (repaire
 Definition E_POL : Z := 5.        (* erase polarity not 0x00 or 0xFF *)
 Definition E_DATAOFF : Z := 6.    (* Assemble: NVAR header size mismatch *)
 Definition E_SIZE : Z := 7.       (* Assemble: NVAR size mismatch *)
+Definition E_FIT : Z := 10.       (* Assemble: NVAR store too small (variables + GUID store exceed Length) *)
 
 Definition at_off {A} (off : Z) (o : outcome A) : outcome A :=
   match o with Err e => Err (e + 8 * off) | x => x end.
@@ -427,9 +428,11 @@ Fixpoint asm_store (pol : Z) (d : nat) (s : nstore) {struct d} : outcome nstore 
     do es <- map_out asm_nvar (s_entries s);
     let nvdata := concat (map v_buf es) in
     let free := zlen nvdata in
-    let goff := (s_len s - nvar_guid_size * zlen (s_guids s)) mod 2 ^ 64 in
-    let gap := (goff - free) mod 2 ^ 64 in
-    if 2 ^ 47 <=? gap then Panic 12 else               (* make([]byte, huge) *)
+    let gsl := nvar_guid_size * zlen (s_guids s) in
+    (* guidStoreLen > f.Length || nvLen > f.Length-guidStoreLen: "NVAR store too small" *)
+    if (s_len s <? gsl) || (s_len s - gsl <? free) then Err E_FIT else
+    let goff := s_len s - gsl in
+    let gap := goff - free in
     Ok (mkStore es (s_guids s) (nvdata ++ zrepeat pol gap ++ concat (rev (s_guids s)))
                 free goff (s_len s))
   end.
@@ -615,7 +618,8 @@ Definition first_next_ok (pol : Z) (l : list aentry) : bool :=
   end.
 
 (* length of [emit pol s]; Go cannot hold a slice anywhere near 2^47 bytes, the
-   bound only keeps the model's uint64 arithmetic away from its wrap *)
+   bound only keeps the model's uint64 arithmetic (Write3Size(NextOffset - Offset))
+   away from its wrap *)
 Definition store_len (s : astore) : Z :=
   sum_list (map ae_size (a_entries s)) + a_free s + nvar_guid_size * zlen (a_table s).
 
